@@ -77,6 +77,16 @@ CHECKS.update({
    text="Invariant over recorded executions: every value returned by a constructor, conversion, function, set operation (and, thorough, operation, unification, call protocol, traversal, decoder) during the bounded-exhaustive drivers of the other properties is projected twice - through every public accessor applicable to its type and through the build-tag hook cty.VerifInspect - and TLC evaluates WellFormed/NodeOK on it: payload shape and Go kind match the type, declared element/attribute types, arity, NFC strings and keys, sets free of marked or equal members with the declared element type in their rules, at most one marker layer, no optional-attribute annotations at any depth.",
    design_ref="DESIGN.md section 4 C06",
    note="Covers exactly the values the other drivers produce. Trusted: accessor-based projection, the read-only hook, TLC."),
+ "C15": dict(
+   technique="TLA+ model of JSON documents and of the type-directed encoder / implied type (JsonDoc); TLC-enumerated values x constraints and grammar-generated documents replayed into the real Marshal/Unmarshal/ImpliedType with bytes tokenized into abstract documents; TLC trace validation",
+   text="Bounded-exhaustive: every generated value x every constraint obtained by replacing sub-types by the placeholder is marshalled by the real encoder; TLC checks that the bytes are valid JSON whose tokenized document equals MarshalModel and that unmarshalling returns an equal value of the same type; every grammar-generated document, rendered in four spellings, must have the structural implied type, unmarshal with it and re-marshal to the same document up to key order, number spelling and normalization; unknown, marked and infinite values must be rejected.",
+   design_ref="DESIGN.md section 4 C15",
+   note="One known-finding class (type of null / empty collection lost under a nested placeholder) is listed in KNOWN_FINDINGS.txt under its own rule name. Numbers compared numerically on the lattice/landmarks or by exact decimal identity. Trusted: encoding/json tokenizer, harness projection, TLC."),
+ "C20": dict(
+   technique="TLA+ Session specification with the action property Immutable checked by TLC on recorded histories (simulated step sequences that mutate returned/handed-over Go data, with every live value re-projected after every step); purity/representation rules on repeated calls; goroutine runs under the Go race detector judged by TLC; value-set/path-set state-machine isolation",
+   text="Conformance over histories: TLC emits thousands of random step histories over a 14-value store (accessor-then-mutate, constructor-input reuse, value-set copy/mutate, builder reuse, refine twice, derived values); the harness replays them, re-projecting every live value after every step and sub-step, and the trace spec rejects any step after which an existing value reports something different. Every operation call of the bounded universe is repeated and run across physical representations (Pure, RepInvariant) and by 8 goroutines on shared operands in a -race build (results equal the sequential result; any race report is a violation). Copy isolation of ValueSet is re-checked with the ValueSetSM / SetImpl traces.",
+   design_ref="DESIGN.md section 4 C20",
+   note="Histories are sampled by simulation; the race detector covers the executed operation pairs, not all interleavings. Documented ownership transfers are not mutation targets. Trusted: harness projection, Go race detector, TLC."),
 })
 
 NOT_APPLICABLE = {}
